@@ -4240,6 +4240,76 @@ def r5_chan_nr_tasks(L, FW, M, C, tu):
     return table
 
 
+TASK2CHAN = "mframe_task2chan_nr"
+
+
+def r5_task_chan_nr(L, FW, M, C):
+    """C11.R5, first clause (`the frames in which the firmware starts a block of a logical channel are the
+    frames trxcon's layout gives to THAT channel`), link task -> channel: the firmware names the channel of
+    the frames a multiframe task schedules by mframe_task2chan_nr(task, timeslot) (the chan_nr of every data
+    indication / traffic frame of the task's rows); R3/R4 compare the frames of task T with the trxcon
+    channel T is mapped to, so the clause only holds if the helper names, for every task and whatever the
+    timeslot, the channel whose number selects T (spec/chan_nr_tasks.json, the inverse of the relation the
+    other half of R5 decides for chan_nr2mf_task_mask()).  The function is executed by the checker's own
+    interpreter for EVERY task spec/mframe_map.json maps to a trxcon channel x EVERY timeslot 0..7 (not one
+    timeslot: a sub-channel derived from the timeslot is only wrong for some of them): for a task the reference
+    lists the result must be (cbits of the task's channel) << 3 | timeslot; a mapped task the reference
+    leaves open (the CCCH tasks) must not be named by the channel number of a listed channel, whose trxcon
+    layout gives that channel other frames.  Tasks without a trxcon counterpart are not constrained."""
+    tu = FW.tu
+    f = tu.func(TASK2CHAN)
+    L.fn(F_FW, TASK2CHAN)
+    ps = tu.fparams(f)
+    if len(ps) != 2:
+        raise AnalysisError("%s() signature changed (%d parameters)" % (TASK2CHAN, len(ps)))
+    if "mframe_task" not in ps[0].get("type", {}).get("qualType", ""):
+        raise AnalysisError("%s(): the first parameter is not an enum mframe_task any more" % TASK2CHAN)
+    mapped = {k for k in M.get("tasks", {}) if not k.startswith("_")}
+    ref = {}
+    for e in C.get("entries", []):
+        for t in e["tasks"]:
+            if t not in FW.tasks:
+                raise AnalysisError("spec/chan_nr_tasks.json names %s, which is not an enumerator of enum mframe_task any more" % t)
+            ref.setdefault(t, set()).update(e["cbits"])
+    listed = set().union(*ref.values()) if ref else set()
+    X_ = FwExec(FW, TASK2CHAN)
+    nchk = nfold = 0
+    for t in sorted((k for k in FW.tasks if not k.startswith("_")), key=lambda k: (FW.tasks[k], k)):
+        if t not in mapped:
+            continue
+        got = []
+        for ts in range(8):
+            X_.steps = 0
+            X_.calls = []
+            r = X_.run(TASK2CHAN, [(FW.tasks[t], 0), (ts, 0)])
+            nfold += 1
+            if X_.calls:
+                raise AnalysisError("%s() queues item sets; outside the model" % TASK2CHAN)
+            if not isinstance(r[0], int) or r[1] != 0 or not 0 <= r[0] <= 255:
+                raise AnalysisError("%s(%s, %d): the returned channel number is not a value the model can compute" % (
+                    TASK2CHAN, t, ts))
+            got.append(r[0])
+        nchk += 1
+        if t in ref:
+            if len(ref[t]) != 1:
+                raise AnalysisError("spec/chan_nr_tasks.json lists %s under %d channel numbers" % (t, len(ref[t])))
+            cb = min(ref[t])
+            want = ["0x%02x" % (cb << 3 | ts) for ts in range(8)]
+            found = ["0x%02x" % v for v in got]
+            L.ob("C11.R5", F_FW, TASK2CHAN,
+                 "task %s, timeslots 0..7: the channel number reported for the task's frames is (cbits 0x%02x of the "
+                 "channel that selects the task) << 3 | timeslot, whatever the timeslot" % (t, cb),
+                 want, found, want == found, tu.line(f))
+        else:
+            clash = sorted({"0x%02x" % (v >> 3) for v in got if v >> 3 in listed})
+            L.ob("C11.R5", F_FW, TASK2CHAN,
+                 "task %s (no dedicated channel number in the reference), timeslots 0..7: its frames are not "
+                 "reported under the cbits of a channel that selects other tasks" % t,
+                 [], clash, not clash, tu.line(f))
+    L.floor("C11.R5", "mapped tasks whose channel number is folded for the 8 timeslots", nchk, 20)
+    L.extra["task_chan_nr"] = {"tasks": nchk, "executions": nfold}
+
+
 # ====================================================== R6: CCCH mode -> task set
 
 M64 = (1 << 64) - 1
@@ -5225,6 +5295,10 @@ def s_chan_nr(L, FW, M, tu_l23):
     r5_chan_nr_tasks(L, FW, M, load_spec("chan_nr_tasks.json"), tu_l23)
 
 
+def s_task_chan_nr(L, FW, M):
+    r5_task_chan_nr(L, FW, M, load_spec("chan_nr_tasks.json"))
+
+
 def s_ccch_mode(L, FW, M, tu_l23):
     r6_ccch_mode_tasks(L, FW, M, load_spec("ccch_mode_tasks.json"), tu_l23)
 
@@ -5268,6 +5342,7 @@ def run(L, tier):
     L.stage(s_cross, L, T, FW, r2, M, S)
     tu_l23 = L.stage(s_l23_tu, L)
     L.stage(s_chan_nr, L, FW, M, tu_l23)
+    L.stage(s_task_chan_nr, L, FW, M)
     L.stage(s_ccch_mode, L, FW, M, tu_l23)
     L.stage(s_lchan_ident, L, T, r2, M, tu_trx)
     if T and FW:
